@@ -991,6 +991,9 @@ def main(prop, tier, seed):
     run = common.Run(prop, tier, seed)
     if prop == "C10":
         aud = common.audit_with_arith(prop, "C10Gen", thorough=(tier == "thorough"))
+    elif prop in ("C08", "C09"):
+        # second tie: the loop body of the ST4 wind-input kernel is re-translated from the source on every run
+        aud = common.audit_with_spec(prop, ["C08Gen"], thorough=(tier == "thorough"))
     else:
         aud = common.audit(prop, thorough=(tier == "thorough"))
     common.use_repo_source()
